@@ -11,7 +11,7 @@
 (*   AppendPage (between files)  ->  Write                                  *)
 (***************************************************************************)
 EXTENDS Naturals, Integers, Sequences, FiniteSets, TLC, Json
-CONSTANTS MaxFiles, Kinds, PageSet, ColorSet, HFSet, MissingSet, LandSet, TailSet, EnvSet,
+CONSTANTS MaxFiles, Kinds, PageSet, ColorSet, HFSet, MissingSet, LandSet, TailSet, EnvSet, PriorSet,
           FigureColorOwnLine      \* deviation flag: TRUE = colour table of figure documents starts its own line
 VARIABLES files, d, phase, i, out, wrote, err, env
 vars == <<files, d, phase, i, out, wrote, err, env>>
@@ -41,7 +41,7 @@ Lines(f) ==
   \o << <<"blank">>, <<"close">> >>
 
 File0(n) == [id |-> n, kind |-> "table", color |-> FALSE, hf |-> FALSE, pages |-> 1, missing |-> FALSE, land |-> FALSE, tail |-> "none"]
-Init == files = <<>> /\ d = 0 /\ phase = "pick" /\ i = 1 /\ out = <<>> /\ wrote = FALSE /\ err = "none" /\ env = [alias |-> FALSE, rerun |-> FALSE, stale |-> FALSE, twin |-> FALSE]
+Init == files = <<>> /\ d = 0 /\ phase = "pick" /\ i = 1 /\ out = <<>> /\ wrote = FALSE /\ err = "none" /\ env = [alias |-> FALSE, rerun |-> FALSE, stale |-> FALSE, twin |-> FALSE, prior |-> "none"]
 \* build the argument list one file (5 picks) at a time
 Pick == /\ phase = "pick"
         /\ \/ (/\ Len(files) < MaxFiles /\ d = 0
@@ -51,8 +51,12 @@ Pick == /\ phase = "pick"
                /\ UNCHANGED env)
            \/ (/\ d = 0 /\ phase' = "check" /\ UNCHANGED <<files, d>>
                \* stale: the output path already holds a longer file; twin: the LAST input is a byte copy of the first
+               \* prior: what the process did just before - "failed" = a call on the same inputs that read them and then could not
+               \* create its output; "other" = a successful call on another argument list.  A call starts from nothing either way.
                /\ \E a \in EnvSet, b \in EnvSet, st \in EnvSet, tw \in EnvSet :
-                    env' = [alias |-> a /\ Len(files) >= 1, rerun |-> b /\ Len(files) >= 1, stale |-> st /\ ~a /\ Len(files) >= 1, twin |-> tw /\ Len(files) >= 2])
+                   \E pr \in (IF a \/ b \/ st \/ tw \/ Len(files) = 0 THEN {"none"} ELSE PriorSet) :
+                    env' = [alias |-> a /\ Len(files) >= 1, rerun |-> b /\ Len(files) >= 1, stale |-> st /\ ~a /\ Len(files) >= 1, twin |-> tw /\ Len(files) >= 2,
+                            prior |-> pr])
         /\ UNCHANGED <<i, out, wrote, err>>
 CheckExists == /\ phase = "check"
                /\ IF Len(files) = 0 THEN phase' = "done" /\ err' = err
